@@ -21,7 +21,8 @@ def handle (op : String) (args : List String) : Option String :=
       | some l, some h, some b =>
           (match Model.checkPoW l h b with
            | .ok => "ok"
-           | .errPow => "err:validation")
+           | .errPow => "err:validation"
+           | .pyStructError => "err:py:error")
       | _, _, _ => badArgs
   | "c17.spec.pow", [limit, hash, bits] => some <|
       match parseNat? limit, parseHex? hash, parseNat? bits with
@@ -36,7 +37,8 @@ def handle (op : String) (args : List String) : Option String :=
       | some p, some h, some b =>
           (match Model.checkPoW p.powLimit h b with
            | .ok => "ok"
-           | .errPow => "err:validation")
+           | .errPow => "err:validation"
+           | .pyStructError => "err:py:error")
       | _, _, _ => badArgs
   | "c17.spec.powChain", [chain, hash, bits] => some <|
       match Spec.chainByName? chain, parseHex? hash, parseNat? bits with
